@@ -8,6 +8,13 @@ FLAVOURS = {
     'schar':    {'cc': 'gcc', 'cflags': SAN + ' -DNDEBUG', 'lib_cflags': '-fsigned-char'},
     'uchar':    {'cc': 'gcc', 'cflags': SAN + ' -DNDEBUG', 'lib_cflags': '-funsigned-char'},
     'tsan':     {'cc': 'gcc', 'cflags': '-O1 -g -fsanitize=thread -DNDEBUG'},
+    # C16: no sanitizer (they change frame layout); eager binding so that the dynamic loader never dumps registers on the monitored stack
+    'opt-O0':   {'cc': 'gcc', 'cflags': '-O0 -g -DNDEBUG', 'ldextra': '-Wl,-z,now'},
+    'opt-O1':   {'cc': 'gcc', 'cflags': '-O1 -g -DNDEBUG', 'ldextra': '-Wl,-z,now'},
+    'opt-O2':   {'cc': 'gcc', 'cflags': '-O2 -g -DNDEBUG', 'ldextra': '-Wl,-z,now'},
+    'opt-O3':   {'cc': 'gcc', 'cflags': '-O3 -g -DNDEBUG', 'ldextra': '-Wl,-z,now'},
+    'opt-Os':   {'cc': 'gcc', 'cflags': '-Os -g -DNDEBUG', 'ldextra': '-Wl,-z,now'},
+    'clang-O2': {'cc': 'clang', 'cflags': '-O2 -g -DNDEBUG', 'ldextra': '-Wl,-z,now'},
 }
 
 ASSUMPTIONS_COMMON = [
@@ -47,4 +54,18 @@ PROPS['C03'] = {
     'exhaustive_possible': True,
     'runs': [{'name': 'asan', 'flavour': 'asan', 'driver': 'drv_c03'}],
     'require': {'encode.calls': 400000, 'bits.seeds': 13531, 'purity.histories_agree': 1000, 'reserved_bit.decodes': 100, 'oracle.vectors_reproduced': 3000},
+}
+
+_C16_FL = ['opt-O0', 'opt-O1', 'opt-O2', 'opt-O3', 'opt-Os', 'clang-O2']
+PROPS['C16'] = {
+    'level': 'exploration',
+    'runs': [{'name': fl, 'flavour': fl, 'driver': 'drv_c16', 'shards': 3} for fl in _C16_FL],
+    'require': {'free.blocks_inspected': 500, 'scan.bytes': 100000, 'scan.needles': 100000,
+                # positive control: with a memzero that only logs, residue MUST be found, otherwise the scanner is blind
+                'control.hits.polyseed_encode': 6, 'control.hits.polyseed_decode': 6, 'control.hits.polyseed_decode_explicit': 6, 'control.hits.polyseed_crypt': 6,
+                'control.free_notzero': 6,
+                'calls.polyseed_decode.OK': 60, 'calls.polyseed_decode.MULT_LANG': 6, 'calls.polyseed_decode.UNSUPPORTED': 60, 'calls.polyseed_decode.MEMORY': 60,
+                'calls.polyseed_decode_explicit.LANG': 60, 'calls.polyseed_load.UNSUPPORTED': 6, 'calls.polyseed_create.OK': 6, 'calls.polyseed_crypt.OK': 60,
+                'calls.polyseed_encode.OK': 60, 'calls.polyseed_free.OK': 6, 'calls.polyseed_keygen.OK': 6},
+    'assumptions': ['register contents and memory owned by the injected dependencies are out of scope', 'observed for gcc 12 -O0/-O1/-O2/-O3/-Os and clang 14 -O2 on x86-64 only'],
 }
